@@ -1,0 +1,7 @@
+//go:build !verif
+
+package soyhtml
+
+// notifyUnbound is called by scope.lookup when no frame binds the key.
+// It does nothing unless the package is built with the verif tag.
+func notifyUnbound(string) {}
